@@ -178,7 +178,8 @@ def intended(r, cfg):
     if op == "version":
         return [{"verb": b"version"}]
     if op == "stats":
-        return [{"verb": b"stats", "args": []}]
+        # arguments go through key validation with an EMPTY prefix
+        return [{"verb": b"stats", "args": [wire_key(a, dict(cfg, key_prefix=b"")) for a in r.get("args", ())]}]
     if op == "quit":
         return [{"verb": b"quit"}]
     raise ValueError(op)
